@@ -9,6 +9,7 @@ package unicodedata
 // Algorithmic Hangul (Unicode Standard 3.12): a code point decomposes iff it is one of the 11172 precomposed syllables,
 // and composing the two parts gives the syllable back; conversely for every pair composeHangul accepts.
 //@ func decomposeHangul C20
+//@   inline
 //@   mode bv
 //@   ensures [domain] ok == (ab >= 0xAC00 && ab < 0xAC00+11172)
 //@   ensures [roundtrip] implies(ok, ret1(composeHangul(a, b)) && ret0(composeHangul(a, b)) == ab)
@@ -16,6 +17,7 @@ package unicodedata
 //@   modifies nothing
 //
 //@ func composeHangul C20
+//@   inline
 //@   mode bv
 //@   ensures [roundtrip] implies(result1, ret2(decomposeHangul(result0)) && ret0(decomposeHangul(result0)) == a && ret1(decomposeHangul(result0)) == b)
 //@   ensures [syllable] implies(result1, result0 >= 0xAC00 && result0 < 0xAC00+11172)
@@ -31,4 +33,21 @@ package unicodedata
 //@   mode int
 //@   ensures [found] result1 == has(mirroring, ch)
 //@   ensures [value] result0 == ite(has(mirroring, ch), mirroring[ch], ch)
+//@   modifies nothing
+//
+// Compose: algorithmic Hangul first, otherwise exactly the composition table (no pair the table holds is rejected).
+//@ func Compose C20
+//@   mode bv
+//@   ensures [hangul] implies(ret1(composeHangul(a, b)), result1 && result0 == ret0(composeHangul(a, b)))
+//@   ensures [table] implies(!ret1(composeHangul(a, b)), result0 == ite(has(compose, pair(a, b)), compose[pair(a, b)], 0) && result1 == (result0 != 0))
+//@   modifies nothing
+//
+// Decompose: algorithmic Hangul first, then the single-character table, then the pair table; otherwise the code point
+// itself and false. With the table invariants above (compose inverts decompose2) this gives the round trip.
+//@ func Decompose C20
+//@   mode bv
+//@   ensures [hangul] implies(ret2(decomposeHangul(ab)), ok && a == ret0(decomposeHangul(ab)) && b == ret1(decomposeHangul(ab)))
+//@   ensures [single] implies(!ret2(decomposeHangul(ab)) && has(decompose1, ab), ok && a == decompose1[ab] && b == 0)
+//@   ensures [pair] implies(!ret2(decomposeHangul(ab)) && !has(decompose1, ab) && has(decompose2, ab), ok && a == decompose2[ab][0] && b == decompose2[ab][1])
+//@   ensures [none] implies(!ret2(decomposeHangul(ab)) && !has(decompose1, ab) && !has(decompose2, ab), !ok && a == ab && b == 0)
 //@   modifies nothing
